@@ -30,6 +30,10 @@ def make_tokens(rng, profile):
             T.define(kind, tok, "%s%s-%s" % (prefix, kind, tok))
         else:
             T.define(kind, tok, prefix + pool.pop())
+    if profile.get("empty_name") and rng.random() < profile["empty_name"]:
+        T.define("name", "x", "")        # (profiles that ask for it: the empty string as a nameplate, often)
+        if "" in pool:
+            pool.remove("")
     share = profile.get("share_strings", True)
     if not plain and rng.random() < 0.15:
         # the empty string is a legal app id and side (and sorts first)
@@ -40,13 +44,15 @@ def make_tokens(rng, profile):
     if not plain and rng.random() < 0.2:
         # a nameplate made of "digits" that are not a decimal number
         w = rng.choice(["\u00b2", "\u2460", "1\u00b2", "\u0663\u0664"])
-        T.define("name", "x", w)
-        if w in pool:
-            pool.remove(w)
+        if "x" not in T.fwd["name"]:
+            T.define("name", "x", w)
+            if w in pool:
+                pool.remove(w)
     elif not plain and rng.random() < 0.12:
-        T.define("name", "x", "")        # the empty string is a legal nameplate ...
-        if "" in pool:
-            pool.remove("")
+        if "x" not in T.fwd["name"]:
+            T.define("name", "x", "")        # the empty string is a legal nameplate ...
+            if "" in pool:
+                pool.remove("")
     if not plain and rng.random() < 0.12:
         T.define("mbox", "m1", "")       # ... and a legal mailbox id
         if "" in pool:
@@ -643,7 +649,7 @@ def run_idle(rng, drv, profile, tid):
     name = rng.choice(p["names"])
     via_np = rng.random() < 0.5
     # --- the predecessor's leftovers
-    left = rng.choice(["channel", "channel", "other", "otherapp", "none"])
+    left = rng.choice(p.get("left_choices") or ["channel", "channel", "other", "otherapp", "none"])
     if left != "none":
         a0 = apps[-1] if left == "otherapp" else app
         bind(slots[0], a0, sides[0])
